@@ -130,7 +130,7 @@ Proof.
   intros fs c F W. unfold Package.c_clone.
   set (c1 := match cpath _ c, pkg _ c with
              | Some _, PZip => c_load_all_zip bytes kid FIXED fs c
-             | Some _, PFolder => if fx38 FIXED then c_load_missing bytes kid FIXED fs (c_listing bytes kid fs c) c else c
+             | Some _, PFolder => if fx38 FIXED then c_load_missing bytes kid FIXED fs (c_listing bytes kid FIXED fs c) c else c
              | _, _ => c end).
   assert (H1 : (forall m, cB fs c1 m = cB fs c m) /\ WFc fs c1 /\ cpath _ c1 = cpath _ c /\ pkg _ c1 = pkg _ c
                /\ (forall n, lookup n (parts _ c1) = None -> disk_lookup fs (cpath _ c) n = None)).
@@ -148,9 +148,9 @@ Proof.
           split; [reflexivity|]. split; [exact W|]. split; [exact Cp|]. split; [exact Pk|].
           intros n _. unfold Package.disk_lookup. rewrite D. reflexivity.
       + cbn [fx38 FIXED].
-        destruct (c_load_missing_sem bytes kid fs (c_listing bytes kid fs c) c W) as [L1 [L2 [L3 [L4 [L5 L6]]]]].
+        destruct (c_load_missing_sem bytes kid fs (c_listing bytes kid FIXED fs c) c W) as [L1 [L2 [L3 [L4 [L5 L6]]]]].
         split; [exact L1|]. split; [exact L2|]. split; [congruence|]. split; [congruence|].
-        intros n Ln. destruct (in_dec Z.eq_dec n (c_listing bytes kid fs c)) as [Hi|Hi].
+        intros n Ln. destruct (in_dec Z.eq_dec n (c_listing bytes kid FIXED fs c)) as [Hi|Hi].
         * rewrite <- Cp. apply L5; assumption.
         * rewrite <- Cp. apply (listing_covers_disk bytes kid fs c n W Hi).
           destruct (lookup n (parts _ c)) eqn:L0; [|reflexivity]. exfalso. apply (L6 n); [congruence|exact Ln].
